@@ -28,7 +28,7 @@ def byte_spec(which):
 
 
 def run(ctx):
-    ctx.rule('C11-R1', 'base64 bit layout: encoder sextets and decoder bytes equal RFC 4648 for the full block and both tails (lane maps, all byte values at once); indices < 64; alphabets are 64 distinct characters without \'=\'; the inverse table is rebuilt fresh with every entry invalid', 20)
+    ctx.rule('C11-R1', 'base64 bit layout: encoder executed abstractly for every input length 0..7 (each character = alphabet[RFC 4648 sextet] or padding), decoder bytes equal RFC 4648 for the full block and both tails (lane maps, all byte values at once); indices < 64; alphabets are 64 distinct characters without \'=\'; the inverse table is rebuilt fresh with every entry invalid', 18)
     ctx.rule('C11-R2', 'base64 validation: every symbol used in an output is tested >= 0x40 in the guard dominating the output; size & 3 rejected before the loop; pad in the 4th place only in the last block; only invalid_argument is thrown', 10)
     ctx.rule('C11-R3', 'rot13 evaluated for all 256 byte values: ASCII letters rotate by 13 within their case, every other byte is unchanged (hence an involution)', 256)
     ctx.rule('C11-R4', 'escape_url / escape_quotes / escape_controls evaluated for all 256 byte values (and flag values): output is a raw permitted byte or the escape that decodes to the byte; no raw quote / control / DEL', 1000)
@@ -44,44 +44,54 @@ def run(ctx):
     # ---------------- R1 encoder
     R = 'C11-R1'
     ebody = body_of(enc)
-    groups = {}
-    for c in walk(ebody):
-        if c.get('kind') == 'CXXMemberCallExpr' and call_name(c) == 'push_back' and canon(member_call_object(c)) == 'ret':
-            blk = enclosing(c, ('CompoundStmt',))
-            groups.setdefault(id(blk), (blk, []))[1].append(c)
-    ctx.require(len(groups) == 3, 'base64_encode: expected three emission blocks (full, 2-byte tail, 1-byte tail), found %d' % len(groups))
-    for blk, pushes in groups.values():
-        locs = [v for v in kids(blk) if v.get('kind') == 'DeclStmt']
-        nin = len(locs)
-        env = {}
-        for i, d in enumerate(locs):
-            vd = kids(d)[0]
-            env[vd['id']] = sym_bv('c%d' % (i + 1), 8, False)
-        label = {3: 'full', 2: 'tail2', 1: 'tail1'}.get(nin, '?')
-        ctx.require(len(pushes) == 4, 'base64_encode %s block does not emit 4 characters' % label)
-        # input bytes are consecutive data[...] elements
-        srcs = [canon(kids(kids(d)[0])[-1]) for d in locs]
-        base = srcs[0].split('[')[1].rstrip(']') if srcs else ''
-        oks = all(s_.startswith('data[') for s_ in srcs)
-        from guard import split_const
-        ks = [split_const(s_[5:-1]) for s_ in srcs]
-        ctx.check(oks and [k_[1] - ks[0][1] for k_ in ks] == list(range(nin)) and len({k_[0] for k_ in ks}) == 1, R, 'encode|%s|inputs' % label, blk, 'consecutive input bytes', 'input bytes are read from %s' % srcs)
-        for j, p in enumerate(pushes):
-            arg = strip(call_args(p)[0])
-            if j >= nin + 1:
-                ctx.check(int_value(arg) == ord('='), R, 'encode|%s|pad%d' % (label, j), p, 'padding character', 'position %d of the %s block is not \'=\'' % (j, label))
-                continue
-            if arg.get('kind') != 'ArraySubscriptExpr' or canon(arg['inner'][0]) != 'alphabet':
-                ctx.bad(R, 'encode|%s|sextet%d' % (label, j), p, 'character %d is not alphabet[...]' % j)
-                continue
-            I.notes = []
-            v = I.eval(arg['inner'][1], env)
-            spec = sextet_spec(j)
-            # bits that depend on bytes beyond the tail are zero
-            spec = [c_ if int(c_[1][1]) <= nin else 0 for c_ in spec]
-            full = spec + [0] * (v.w - 6)
-            bad = expect_lanes(v, full)
-            ctx.check(not bad and not I.notes, R, 'encode|%s|sextet%d' % (label, j), p, 'sextet %d = RFC 4648 bits, index < 64' % j, 'sextet %d of the %s block: %s' % (j, label, describe_mismatch(bad)))
+    # The encoder is executed abstractly (bit provenance, nothing is run) for every input length
+    # 0..7 with symbolic data bytes: control flow depends only on the length, so each run is a
+    # straight line; every emitted character must be alphabet[RFC 4648 sextet] or '=' in the RFC's
+    # positions.  Any restructuring of the tail handling is accepted as long as this holds.
+    size_p = params_of(enc)[1]
+    for n in range(0, 8):
+        out = []
+        I.notes = []
+        try:
+            emit_exec(I, list(kids(ebody)), {size_p['id']: const_bv(n, 64)}, out, 'ret')
+        except Unsupported as e:
+            raise AnalysisBroken('base64_encode: statement form outside the supported set (%s)' % e)
+        want = []
+        for blk in range((n + 2) // 3):
+            k = blk * 3
+            have = min(3, n - k)
+            for j in range(4):
+                if j <= have:
+                    cells = []
+                    for t in range(6):     # LSB first
+                        bitpos = j * 6 + (5 - t)      # 0 = MSB of the 24-bit group
+                        byte, bb = divmod(bitpos, 8)
+                        cells.append(('i', ('mem', 'data', '0', k + byte), 7 - bb) if byte < have else 0)
+                    want.append(('tab', cells))
+                else:
+                    want.append(('lit', ord('=')))
+        okn = len(out) == len(want)
+        why = 'emits %d characters for %d input bytes, RFC 4648 requires %d' % (len(out), n, len(want))
+        site = enc
+        if okn:
+            for j, (g, w) in enumerate(zip(out, want)):
+                site = g[-1]
+                if w[0] == 'lit':
+                    if not (g[0] == 'lit' and g[1] == w[1]):
+                        okn, why = False, 'character %d for a %d-byte input must be the padding \'=\', got %s' % (j, n, describe_emit(g))
+                        break
+                else:
+                    if g[0] != 'tab' or g[1] != 'alphabet':
+                        okn, why = False, 'character %d for a %d-byte input must be alphabet[sextet], got %s' % (j, n, describe_emit(g))
+                        break
+                    v = g[2]
+                    bad = expect_lanes(v, w[1] + [0] * (v.w - 6))
+                    if bad:
+                        okn, why = False, 'character %d for a %d-byte input: sextet %s' % (j, n, describe_mismatch(bad))
+                        break
+        if okn and I.notes:
+            okn, why = False, I.notes[0]
+        ctx.check(okn, R, 'encode|length-%d' % n, site, '%d input bytes -> %d characters, each alphabet[RFC 4648 sextet] or padding' % (n, len(want)), why)
     # decoder
     dbody = body_of(dec)
     dpush = [c for c in walk(dbody) if c.get('kind') == 'CXXMemberCallExpr' and call_name(c) == 'push_back' and canon(member_call_object(c)) == 'ret']
@@ -252,3 +262,113 @@ def run(ctx):
             ctx.check(ok, R, 'escape_controls|non_ascii=%d|0x%02X' % (fl_, b), lp, '%r' % (em.decode('latin1') if em else None),
                       'escape_controls(escape_non_ascii=%d) renders byte 0x%02X as %r: %s' % (fl_, b, em.decode('latin1') if em is not None else None, 'a raw control / DEL / quote / backslash byte is emitted' if em is not None and len(em) == 1 else 'the escape does not decode to the byte'), nontrivial=not raw_allowed)
     ctx.note('R3 and R4 are exhaustive over the 256 byte values (x flag values) on the extracted chains. Not decided: render_netloc/parse_netloc round trip (a value question: stod-based port parsing).')
+
+
+def describe_emit(g):
+    if g[0] == 'lit':
+        return 'the constant %r' % chr(g[1])
+    if g[0] == 'tab':
+        return '%s[...]' % g[1]
+    if g[0] == 'ite':
+        return 'a character chosen by the VALUE of an input byte (`%s`)' % g[1]
+    return str(g[0])
+
+
+def emit_exec(I, stmts, env, out, sink):
+    """Abstract straight-line execution of an encoder: integer locals live in env, calls
+    `sink.push_back(e)` are recorded in out as ('lit', c, node) / ('tab', table, indexBV, node) /
+    ('ite', condition text, node).  Loops and ifs must have constant conditions (they do once the
+    length is fixed).  Returns 'return' when a return statement was executed."""
+    for s_ in stmts:
+        k = s_.get('kind')
+        if k == 'CompoundStmt':
+            if emit_exec(I, list(kids(s_)), env, out, sink) == 'return':
+                return 'return'
+            continue
+        if k == 'ReturnStmt':
+            return 'return'
+        if k == 'NullStmt':
+            continue
+        if k == 'DeclStmt':
+            for vd in kids(s_):
+                if vd.get('kind') == 'VarDecl' and kids(vd) and width_of_type(dtype(vd)):
+                    env[vd['id']] = I.cast(I.eval(kids(vd)[-1], env), dtype(vd))
+            continue
+        if k == 'IfStmt':
+            cond, then, els = if_parts(s_)
+            emits = any(c.get('kind') == 'CXXMemberCallExpr' and call_name(c) in ('push_back', 'append') or (c.get('kind') == 'CXXOperatorCallExpr' and call_name(c) == 'operator+=') for c in walk(s_))
+            if not width_of_type(dtype(strip(cond))) or '*' in (dtype(strip(cond, casts=True)) or ''):
+                if not emits:
+                    continue    # pointer defaulting such as `if (!alphabet) alphabet = DEFAULT`
+            c = I.truth(I.eval(cond, env))
+            if c == 1:
+                r = emit_exec(I, [then], env, out, sink)
+            elif c == 0:
+                r = emit_exec(I, [els], env, out, sink) if els is not None and els.get('kind') else None
+            elif not emits:
+                continue
+            else:
+                raise Unsupported('branch on a non-constant condition `%s` at %s' % (src_text(cond, 50), loc_str(cond)))
+            if r == 'return':
+                return 'return'
+            continue
+        if k in ('ForStmt', 'WhileStmt'):
+            if k == 'ForStmt':
+                init, cv, cond, inc, lb = for_parts(s_)
+                if init is not None and init.get('kind'):
+                    emit_exec(I, [init], env, out, sink)
+            else:
+                cond, lb = while_parts(s_)
+                inc = None
+            for _ in range(64):
+                c = I.truth(I.eval(cond, env)) if cond is not None and cond.get('kind') else 1
+                if c == 0:
+                    break
+                if c != 1:
+                    raise Unsupported('loop on a non-constant condition `%s` at %s' % (src_text(cond, 50), loc_str(cond)))
+                benv = dict(env)
+                r = emit_exec(I, [lb], benv, out, sink)
+                for key in env:
+                    env[key] = benv[key]
+                if r == 'return':
+                    return 'return'
+                if inc is not None and inc.get('kind'):
+                    I.exec_stmts([inc], env)
+            else:
+                raise Unsupported('loop does not terminate within 64 iterations at %s' % loc_str(s_))
+            continue
+        e = strip(s_, casts=False)
+        if e.get('kind') == 'CXXMemberCallExpr' and canon(member_call_object(e)) == sink:
+            nm = call_name(e)
+            if nm == 'push_back':
+                out.append(_emit_value(I, call_args(e)[0], env, e))
+                continue
+            if nm in ('reserve', 'clear', 'shrink_to_fit'):
+                continue
+            raise Unsupported('%s.%s at %s' % (sink, nm, loc_str(e)))
+        if e.get('kind') == 'CXXOperatorCallExpr' and call_name(e) == 'operator+=' and canon(e['inner'][1]) == sink:
+            out.append(_emit_value(I, e['inner'][2], env, e))
+            continue
+        if e.get('kind') in ('BinaryOperator', 'CompoundAssignOperator') and not width_of_type(dtype(e['inner'][0])):
+            continue     # pointer assignment
+        I.exec_stmts([s_], env)
+    return None
+
+
+def _emit_value(I, arg, env, node):
+    a = strip(arg, casts=False)
+    while a.get('kind') in ('ImplicitCastExpr', 'ParenExpr', 'CStyleCastExpr', 'CXXStaticCastExpr') and kids(a):
+        a = strip(kids(a)[0], casts=False)
+    if a.get('kind') == 'ConditionalOperator':
+        c = I.truth(I.eval(a['inner'][0], env))
+        if c == 1:
+            return _emit_value(I, a['inner'][1], env, node)
+        if c == 0:
+            return _emit_value(I, a['inner'][2], env, node)
+        return ('ite', src_text(a['inner'][0], 40), node)
+    if a.get('kind') == 'ArraySubscriptExpr':
+        return ('tab', canon(a['inner'][0]), I.eval(a['inner'][1], env), node)
+    v = bv_const(I.eval(a, env))
+    if v is not None:
+        return ('lit', v & 0xFF, node)
+    return ('unknown', src_text(a, 40), node)
